@@ -52,6 +52,8 @@ type Driver struct {
 	LastRaw *RawResponse // concrete request/response log of the last operation (for replays)
 	ks      oidc.KeySet  // library key set on the provider's /keys
 	rot     int
+
+	respJournal []modelstore.JournalEntry // storage calls made while the requests of the current operation were served
 }
 
 type RawResponse struct {
@@ -152,6 +154,10 @@ func (c *countingWriter) WriteHeader(code int) {
 func (d *Driver) do(req *http.Request) *RawResponse {
 	raw := Serve(d.H, req)
 	d.LastRaw = raw
+	// the fault plan and the journal concern the storage calls made while the request was served,
+	// not the ones the projection makes afterwards (fetching /keys to verify the issued tokens ...)
+	d.Store.SetFault(0, "", "")
+	d.respJournal = append(d.respJournal, d.Store.TakeJournal()...)
 	return raw
 }
 
@@ -824,12 +830,25 @@ func (d *Driver) Exec(opName string, a M) M {
 		// fault plan: every call of storage method f made while serving this operation fails
 		d.Store.SetFault(0, f, "error")
 	}
+	if k, ok := a["faultAt"].(int); ok && k > 0 {
+		// fault plan of the C10 sweep: the k-th storage call of this operation fails
+		kind := S(a, "faultKind")
+		if kind == "" {
+			kind = "error"
+		}
+		d.Store.SetFault(k, "", kind)
+	}
+	d.respJournal = nil
 	defer func() {
 		d.Store.SetFault(0, "", "")
-		j := d.Store.TakeJournal()
+		j := append(d.respJournal, d.Store.TakeJournal()...)
+		if d.LastRaw != nil {
+			j = d.respJournal
+		}
 		for _, e := range j {
 			if e.Err == modelstore.ErrInjected.Error() || e.Err == context.DeadlineExceeded.Error() {
 				out["faulted"] = true
+				out["faultedCall"] = e.Method
 			}
 		}
 		out["journal"] = d.journalNames(j)
@@ -906,7 +925,7 @@ func (d *Driver) Exec(opName string, a M) M {
 		d.applyCred(form, hdr, S(a, "caller"), Sub(a, "cred"))
 		r := d.post("/oauth/token", form, hdr)
 		// which refresh token was handed to the storage for rotation?
-		for _, e := range d.Store.Journal {
+		for _, e := range d.respJournal {
 			if e.Method == "CreateAccessAndRefreshTokens" && e.Err == "" {
 				for _, x := range e.Args {
 					if strings.HasPrefix(x, "current=") {
@@ -1016,7 +1035,7 @@ func (d *Driver) Exec(opName string, a M) M {
 					out["target"] = abstractTarget(t)
 				}
 			}
-			for _, e := range d.Store.Journal {
+			for _, e := range d.respJournal {
 				if e.Method == "TerminateSession" && e.Err == "" && len(e.Args) == 2 {
 					out["sub"], out["req"] = none(e.Args[0]), none(e.Args[1])
 				}
